@@ -65,9 +65,10 @@ def gen_cases(ctx):
             edit = [rng.choice([1, 2, 3])]
         elif route == "spassign":
             edit = [rng.choice([world.rand_sp(rng), copy.deepcopy(old), {**old, "a": rng.choice([1, 1.0, "1"])}])]
+        uninit = rng.random() < 0.08
         if ctx.take(i):
             yield {"old": old, "route": route, "edit": edit, "dest": dest, "payload": payload, "prov": prov,
-                   "uninit": rng.random() < 0.08}
+                   "uninit": uninit}
         i += 1
 
 
